@@ -314,6 +314,8 @@ class Exec:
 
     def vc(self, name, goal, line=0, expect='unsat', extra_hyps=(), note=''):
         full = '%s.%s' % (self.qual, name)
+        if isinstance(goal, bool):          # a clause that evaluated to a Python truth value (e.g. a comparison with None)
+            goal = z3.BoolVal(goal)
         hyps = list(self.st.pc) + list(getattr(self, 'guards', None) or []) + list(extra_hyps)
         v = VC(full, hyps, list(self.st.qh), goal, line, expect, note)
         k = v.key()
